@@ -14,5 +14,5 @@ CONSTANTS
   TSet = {1, 2}
   EqualOnly = FALSE
   Emit = TRUE
-INVARIANTS AlgoIsSpec DetailedBalance Positive LinearInJ2 NeutralIgnoresField FieldAntisymmetric Vector
+INVARIANTS AlgoIsSpec DetailedBalance ExponentNonPositive Positive LinearInJ2 NeutralIgnoresField FieldAntisymmetric Vector
 CHECK_DEADLOCK FALSE
